@@ -257,6 +257,11 @@ def run_protocol(sc):
                 if fin == 'end':
                     try:
                         eng.end()
+                        # the published composite can still be read afterwards (a
+                        # serial process answers; no command goes to a worker that
+                        # has ended)
+                        for pp in list(known.values()):
+                            _ = pp.parameters
                         drain_hooks(recs)
                         recs.append({'ev': 'expect_ended', 'ws': sorted(known), 'why': 'Engine.end()'})
                         recs.append({'ev': 'alive', 'ws': alive(known), 'known': sorted(known)})
